@@ -92,6 +92,11 @@ def concrete(c):
             d["iou_3d_thresholds"] = 0.3
         if c["unknownKey"]:
             d["foo_thresholds"] = [0.8]
+    if c.get("auxShape", "list") != "list":
+        val = {"scalar": 3, "zero": 0, "singleton": [2], "empty": [], "short": [1, 2, 3]}[c["auxShape"]]
+        if c["aux"] in ("confidence_threshold",) and isinstance(val, int):
+            val = val / 10.0
+        d[c["aux"]] = val
     is2d = c["task"] in ("detection2d", "tracking2d", "classification2d", "fp_validation2d")
     if c["nFrameIds"] == 1:
         frame_id = "cam_front" if is2d else "base_link"
@@ -133,8 +138,14 @@ def replay_cfg(arg):
         bad = []
         for k, v in cfg.filtering_params.items():
             if k.endswith("_list") or k in ("max_matchable_radii", "min_point_numbers"):
-                if v is not None and len(v) != n:
+                if v is not None and (not isinstance(v, list) or len(v) != n):
                     bad.append(k)
+        if c["auxShape"] != "list":
+            key = {"min_point_numbers": "min_point_numbers", "confidence_threshold": "confidence_threshold_list", "max_matchable_radii": "max_matchable_radii",
+                   "max_x_position": "max_x_position_list"}[c["aux"]]
+            v = cfg.filtering_params.get(key)
+            if not isinstance(v, list) or len(v) != n:
+                bad.append(key + ":given-as-" + c["auxShape"])
         mc = cfg.metrics_config.detection_config or cfg.metrics_config.tracking_config
         if mc is not None:
             for k in ("center_distance_thresholds", "plane_distance_thresholds", "iou_2d_thresholds", "iou_3d_thresholds"):
